@@ -222,6 +222,18 @@ func DHCP(r *prng.R) *rec.Rec {
 	ch := make([]byte, 16)
 	copy(ch, r.Bytes(int(d.U("hlen"))))
 	d.SetB("chaddr", ch).SetL("options", nil)
+	if r.Chance(1, 6) {
+		// option overload (RFC 2132, option 52): the file and/or sname fields carry further options - here option
+		// lists that themselves contain an overload option, pads and an end mark
+		ov := uint64(r.Range(1, 3))
+		d.Add("options", rec.New("dhcp_opt").Set("tag", 52).SetB("data", []byte{byte(ov)}))
+		tlvs := []byte{52, 1, byte(r.Range(1, 3)), 0, 12, 3, 'a', 'b', 'c', 52, 1, 3, 255}
+		file := make([]byte, 128)
+		copy(file, tlvs)
+		sname := make([]byte, 64)
+		copy(sname, tlvs[3:])
+		d.SetB("file", file).SetB("sname", sname)
+	}
 	n := r.Pick(0, 1, 2, 5, r.Range(0, 12))
 	for i := 0; i < n; i++ {
 		tag := uint64(r.Range(1, 254))
